@@ -49,6 +49,14 @@ func (m *refLRU) Get(k string) (int, bool) {
 	return m.l[0].v, true
 }
 
+// peek returns the value stored under k without refreshing it.
+func (m *refLRU) peek(k string) (int, bool) {
+	if i := m.find(k); i >= 0 {
+		return m.l[i].v, true
+	}
+	return 0, false
+}
+
 func (m *refLRU) Put(k string, v int) {
 	i := m.find(k)
 	if v == 0 { // delete
@@ -148,7 +156,23 @@ func TestC36(t *testing.T) {
 		nops := 10 + rg.Intn(50)
 		for j := 0; j < nops && !bad; j++ {
 			k := keys[rg.Intn(nk)]
-			switch x := rg.Intn(10); {
+			switch x := rg.Intn(11); {
+			case x == 10:
+				// store again the very pointer that is stored under k (what a session cache sees when a
+				// resumed session is saved back): it must count as a use, like any Put
+				if wv, wok := m.peek(k); wok {
+					var same *tls.ClientSessionState
+					for p, id := range ids {
+						if id == wv {
+							same = p
+						}
+					}
+					if same != nil {
+						c.Put(k, same)
+						m.Put(k, wv)
+						trace = append(trace, fmt.Sprintf("Put(%s,same %d)", k, wv))
+					}
+				}
 			case x < 4:
 				s := &tls.ClientSessionState{}
 				ids[s] = next
